@@ -105,6 +105,10 @@ func (s *ScopeSchema) ApplyNamespace(externalObjects map[string]*ObjectSchema, n
 	// When the namespace is the default namespace, each scope should pass itself down.
 	var objectsToApply map[string]*ObjectSchema
 	if namespace == SelfNamespace {
+		// Linking a scope to itself is the last step of building it. A scope without its root object is of no use, and
+		// every operation on it would panic on first use: say so now, while the schema is still being built (for a
+		// received description the loaders report the panic as an invalid description).
+		s.RootObject()
 		objectsToApply = s.Objects()
 	} else {
 		objectsToApply = externalObjects
